@@ -24,7 +24,8 @@ Text level (all texts, all maps, all filters — no size bound):
 * `locals_untouched`, `other_tokens_untouched`, `unmapped_untouched`, `swap_applies_once`.
 * `relex_stable_statement` — stated, checked on every case of the correspondence run by the model
   driver (`relex-mismatch`) and on instances here; not proved in general.
-* `translateRaw_text` (from C17's `translateRaw_spec`) for reference texts.
+* `translateRaw_text` (from C17's `translateRaw_spec`) and `translateRaw_strict` (byte for byte: only
+  the name bytes of a renamed entity reference change) for reference texts.
 
 Schema level (fragment model of C07): `rename_iso`, `substitute_iso`,
 `rename_capture_counterexample`, `rename_without_substitution_counterexample`.
@@ -185,39 +186,66 @@ theorem extractUGlobals_tokens (cps : List Nat) (hv : ∀ c ∈ cps, scalar c) (
   rw [hl]
   rfl
 
-/-- reference texts: `TextConcept::TranslateRaw` re-spells exactly the entity references whose name
-is mapped to a different name and keeps every other byte (C17, `translateRaw_spec`) -/
+/-- reference texts: `TextConcept::TranslateRaw` rewrites exactly the entity references whose name is
+mapped to a different name — in these only the bytes of the name — and keeps every other byte
+(C17, `translateRaw_spec`) -/
 theorem translateRaw_text (tr : Translator) (cps : List Nat) (hv : ∀ c ∈ cps, validCp c) :
     Refs.translateRaw Refs.Variant.current tr (encode cps) = .ok (Refs.Spec.translateSpec tr cps) :=
   CCVerif.Refs.translateRaw_spec tr cps hv
 
-/-- the strict reading of "changes nothing else" for a reference text: only the bytes of the name of an
-affected entity reference change -/
-def translateRaw_strict_statement : Prop :=
-  ∀ (tr : Translator) (cps : List Nat), (∀ c ∈ cps, validCp c) →
-    Refs.translateRaw Refs.Variant.current tr (encode cps) = .ok (translateRefsStrict tr cps)
+/-- the strict specification of this package and C17's specification are the same function -/
+private theorem translateRefsStrict_eq (tr : Translator) (cps : List Nat) :
+    translateRefsStrict tr cps = Refs.Spec.translateSpec tr cps := by
+  unfold translateRefsStrict Refs.Spec.translateSpec
+  congr 2
+
+/-- **translateRaw_strict.** The strict, byte-for-byte reading of "changes nothing else" for a
+reference text: for every well-formed text and every translator, `TranslateRaw` returns the text
+in which, of every found entity reference whose name is mapped to a different name, only the bytes
+of the name are replaced by the new name (`translateRefsStrict`: gaps, other references, and the
+tags / blanks / legacy fields of the renamed references byte for byte). -/
+theorem translateRaw_strict (tr : Translator) (cps : List Nat) (hv : ∀ c ∈ cps, validCp c) :
+    Refs.translateRaw Refs.Variant.current tr (encode cps) = .ok (translateRefsStrict tr cps) := by
+  rw [translateRefsStrict_eq]
+  exact CCVerif.Refs.translateRaw_spec tr cps hv
+
+/-- **strict_item_bytes.** What `translateRefsStrict` weaves in for a found entity reference `n ↦ n'`,
+`n' ≠ n`: the original bytes are `@{` ++ `n` ++ `|` ++ tail and the replacement is `@{` ++ `n'` ++ `|`
+++ the same tail (so `take 2` / `drop (2 + |n|)` in `strictItem` never cut anything else). -/
+theorem strict_item_bytes (tr : Translator) (cps : List Nat) (x : Nat × Nat × Refs.RefData)
+    (hx : x ∈ Refs.Spec.refsOf cps) (n : Bytes) (f : Refs.Morph) (n' : Bytes)
+    (hd : x.2.2 = .entity n f) (htr : tr n = some n') (hne : n' ≠ n) :
+    ∃ tl, encode (Refs.Spec.slice cps x.1 x.2.1) = [Refs.cAt, Refs.cOpen] ++ n ++ Refs.cBar :: tl ∧
+      (strictItem tr cps x).text = [Refs.cAt, Refs.cOpen] ++ n' ++ Refs.cBar :: tl :=
+  CCVerif.Refs.translateRaw_name_only tr cps x hx n f n' hd htr hne
 
 /-- `@{X1|nomn,sing}` -/
 def refNomnSing : List Nat := [64, 123, 88, 49, 124, 110, 111, 109, 110, 44, 115, 105, 110, 103, 125]
 
-/-- **finding (recorded as C08-reference-respelled).** `TranslateRaw` replaces an affected reference by
-its canonical spelling (`Reference::ToString`): renaming `X1` to `X2` turns `@{X1|nomn,sing}` into
-`@{X2|sing,nomn}` — the tags are re-ordered (likewise blanks, repeated or unknown tags and the
-legacy field form are lost). The reference still denotes the same form of the renamed entity
-(`translateRaw_text`, C17), so the meaning is kept; the byte-level clause is not. -/
-theorem translateRaw_respells_reference_counterexample :
+/-- `translateRaw_strict` on an instance where the strict reading and the canonical spelling differ:
+renaming `X1` to `X2` turns `@{X1|nomn,sing}` into `@{X2|nomn,sing}` (tags as typed). -/
+theorem translateRaw_strict_example :
     Refs.translateRaw Refs.Variant.current (createTranslator [([88, 49], [88, 50])]) (encode refNomnSing) =
-      .ok [64, 123, 88, 50, 124, 115, 105, 110, 103, 44, 110, 111, 109, 110, 125] ∧
+      .ok [64, 123, 88, 50, 124, 110, 111, 109, 110, 44, 115, 105, 110, 103, 125] ∧
     translateRefsStrict (createTranslator [([88, 49], [88, 50])]) refNomnSing =
       [64, 123, 88, 50, 124, 110, 111, 109, 110, 44, 115, 105, 110, 103, 125] := by
   decide +kernel
 
-theorem translateRaw_strict_statement_false : ¬ translateRaw_strict_statement := by
-  intro h
-  have h1 := h (createTranslator [([88, 49], [88, 50])]) refNomnSing (by intro c hc; unfold validCp; simp [refNomnSing] at hc; omega)
-  rw [translateRaw_respells_reference_counterexample.1, translateRaw_respells_reference_counterexample.2] at h1
-  revert h1
-  decide
+-- non-vacuity of `strict_item_bytes`
+example : (0, 15, Refs.RefData.entity [88, 49] [25, 30]) ∈ Refs.Spec.refsOf refNomnSing ∧
+    createTranslator [([88, 49], [88, 50])] [88, 49] = some [88, 50] := by decide +kernel
+
+/-- **the behaviour before the repair (pinned definition, closed fact).** Until the commit "fix:
+renaming an entity inside a text reference rewrites the name only" `TranslateRaw` replaced an
+affected reference by its canonical spelling (`translateRefsRespelledPinned`): `X1 ↦ X2` turned
+`@{X1|nomn,sing}` into `@{X2|sing,nomn}` — tags re-ordered — which is not the strict result. The
+former finding C08-reference-respelled; it is repaired, `translateRaw_strict` holds now. -/
+theorem translateRaw_respelled_pinned_observed :
+    translateRefsRespelledPinned (createTranslator [([88, 49], [88, 50])]) refNomnSing =
+      [64, 123, 88, 50, 124, 115, 105, 110, 103, 44, 110, 111, 109, 110, 125] ∧
+    translateRefsRespelledPinned (createTranslator [([88, 49], [88, 50])]) refNomnSing ≠
+      translateRefsStrict (createTranslator [([88, 49], [88, 50])]) refNomnSing := by
+  decide +kernel
 
 /-- what does hold byte for byte: a reference text none of whose entity references is renamed is
 returned unchanged (corollary of C17's specification on an instance class: the empty map) -/
